@@ -291,11 +291,11 @@ type bZooIface interface{ zoo() }
 
 func TestVerif_C19_BuildTotality(t *testing.T) {
 	res := &verifResult{Check: "Build totality", Property: "C19", Exhaustive: true,
-		Bound: "tag soup: all atom sequences of length <= 3 (thorough: <= 4) over 32 atoms {@ @@ Ident Nope \"a\" 'b' 'cd' `e` '\"' '\\'' \"a\":Ident \"a\":Nope ( ) [ ] { } | ? * + ! ~ (?= (?! : = , 1 \"unterminated '}, each as one field, split over two fields, and with token-free (white space only) fields before, between and after, whole-tag and parser:\"...\" forms, field types string and *struct; every single-atom insertion / deletion / replacement of 14 valid tags; 48 field types (maps, channels, functions, interfaces, arrays, anonymous / recursive / left-recursive / self-embedding structs, self-referential and mutually referential slice and pointer types, Parseable with value and pointer receivers, Capture, TextUnmarshaler, lexer.Token) x 8 tags and as root types; 7 cases of misused options (nil union member, duplicate / empty / non-interface union, unknown token names); 288 raw tags in which a name is directly followed by a colon (at the end of the tag, before a quote, next to tags of other packages)",
+		Bound: "tag soup: all atom sequences of length <= 3 (thorough: <= 4) over 34 atoms {'@' \"?\" (operators as quoted literals) @ @@ Ident Nope \"a\" 'b' 'cd' `e` '\"' '\\'' \"a\":Ident \"a\":Nope ( ) [ ] { } | ? * + ! ~ (?= (?! : = , 1 \"unterminated '}, each as one field, split over two fields, and with token-free (white space only) fields before, between and after, whole-tag and parser:\"...\" forms, field types string and *struct; every single-atom insertion / deletion / replacement of 14 valid tags; 48 field types (maps, channels, functions, interfaces, arrays, anonymous / recursive / left-recursive / self-embedding structs, self-referential and mutually referential slice and pointer types, Parseable with value and pointer receivers, Capture, TextUnmarshaler, lexer.Token) x 8 tags and as root types; 7 cases of misused options (nil union member, duplicate / empty / non-interface union, unknown token names); 288 raw tags in which a name is directly followed by a colon (at the end of the tag, before a quote, next to tags of other packages)",
 		Rule: "distinct (struct type, tag) inputs; non-trivial = the reference recogniser classifies the tag (valid, or one of the property's four rejection classes)"}
 	def := lexer.MustSimple([]lexer.SimpleRule{{Name: "Ident", Pattern: `[a-z]+`}, {Name: "Int", Pattern: `\d+`}, {Name: "Punct", Pattern: `[^\sa-z\d]`}, {Name: "Whitespace", Pattern: `\s+`}})
 	symbols := map[string]bool{"Ident": true, "Int": true, "Punct": true, "Whitespace": true, "EOF": true}
-	atoms := []string{"@", "@@", "Ident", "Nope", `"a"`, `'b'`, `'cd'`, "`e`", `'"'`, `'\''`, `"a":Ident`, `"a":Nope`, "(", ")", "[", "]", "{", "}", "|", "?", "*", "+", "!", "~", "(?=", "(?!", ":", "=", ",", "1", `"unterminated`, "'"}
+	atoms := []string{"@", "@@", "Ident", "Nope", `"a"`, `'b'`, `'cd'`, "`e`", `'"'`, `'\''`, `"a":Ident`, `"a":Nope`, "(", ")", "[", "]", "{", "}", "|", "?", "*", "+", "!", "~", "(?=", "(?!", ":", "=", ",", "1", `"unterminated`, "'", `'@'`, `"?"`}
 	// atoms that are several tag tokens are split for the recogniser
 	expand := func(seq []string) []string {
 		var out []string
